@@ -5,6 +5,7 @@ import RsslVerif.Lemmas.LayoutFields
 import RsslVerif.Gen.LayoutSites
 import RsslVerif.Gen.LayoutPurity
 import RsslVerif.Lemmas.LayoutContext
+import RsslVerif.Lemmas.LayoutIgnored
 /-!
 # C19 — layout-consistency validation is sound
 
@@ -578,6 +579,41 @@ theorem check_layout_order_free (m m' : Module) (hc : Consistent m)
     exact (checkFrom_ok_iff 0 _).1 h _ (List.mem_map.2 ⟨e, he, rfl⟩)
   · cases h
   · cases h
+
+/-- **Only the matched sites matter** (wave 11).  For every module: dropping every global that is not — below its
+    `Modifier` / `Array` layers — an object of a matched kind with an element type, and every function that is not a
+    matched typed load / store intrinsic with template instantiation data, changes neither `types_to_check` (entries,
+    order, locations) nor the verdict nor whether the collection panics.  So resources of any other kind (`Buffer<T>`,
+    textures, samplers, raw buffers, `ConstantBuffer<T>`), plain / static / groupshared variables, local variables,
+    non-templated intrinsics, user functions and function template instances — in any number, anywhere between the
+    matched ones — are never looked at and can neither hide nor cause a diagnostic. -/
+theorem unmatched_sites_ignored (m : Module) :
+    collect ⟨m.globals.filter Lemmas.LayoutIgnored.globalMatters, m.fns.filter Lemmas.LayoutIgnored.fnMatters⟩ = collect m ∧
+    checkLayout ⟨m.globals.filter Lemmas.LayoutIgnored.globalMatters, m.fns.filter Lemmas.LayoutIgnored.fnMatters⟩
+      = checkLayout m := by
+  have h := Lemmas.LayoutIgnored.collect_filter m
+  refine ⟨h, ?_⟩
+  unfold checkLayout
+  rw [h]
+
+/-- non-vacuity: the `decoy` globals and functions of the correspondence run (a `Buffer`, a texture, a `ConstantBuffer`
+    of the differing struct, a plain variable, an untyped raw-buffer load, a user function template instance) do not
+    matter, a structured buffer (static: no modifier; extern: const) and a typed store do; with or without the decoys the
+    module is rejected at the same entry with the same numbers -/
+example :
+    let decoysG : List Global := [⟨.modifier (.object "Buffer" none), "d0"⟩, ⟨.modifier (.object "Texture2D" none), "d1"⟩,
+      ⟨.modifier (.object "ConstantBuffer" (some ⟨0, sF⟩)), "d2"⟩, ⟨.other, "d3"⟩, ⟨.array .other, "d4"⟩]
+    let decoysF : List Fn := [⟨some "ByteAddressBufferLoad3", none⟩, ⟨none, some [.type ⟨0, sF⟩]⟩, ⟨none, none⟩,
+      ⟨some "RWByteAddressBufferStore", none⟩]
+    let sb : Global := ⟨.object "StructuredBuffer" (some ⟨1, sG⟩), "g"⟩
+    let st : Fn := ⟨some "RWByteAddressBufferStore", some [.type ⟨0, sF⟩]⟩
+    decoysG.all (fun g => !Lemmas.LayoutIgnored.globalMatters g) = true ∧
+    decoysF.all (fun f => !Lemmas.LayoutIgnored.fnMatters f) = true ∧
+    Lemmas.LayoutIgnored.globalMatters sb = true ∧ Lemmas.LayoutIgnored.fnMatters st = true ∧
+    checkLayout ⟨decoysG ++ [sb] ++ decoysG, decoysF ++ [st] ++ decoysF⟩ = .mismatch 1 ⟨12, 4⟩ ⟨16, 8⟩ ∧
+    checkLayout ⟨[sb], [st]⟩ = .mismatch 1 ⟨12, 4⟩ ⟨16, 8⟩ ∧
+    checkLayout ⟨decoysG, decoysF⟩ = .ok := by
+  decide
 
 private def sE : Ty := .struct .nil
 private def sA : Ty := .struct (Tys.ofList [.scalar .Float16, sE, .scalar .Float32])
